@@ -18,14 +18,18 @@ impl Instruction {
 
         if self.arguments.len() >= 1 {
             for arg in &self.arguments[..] {
+                // always quote and escape exactly what the loader (`split_string`) decodes again:
+                // an argument may be empty or contain quotes, backslashes and any white space.
                 args.push(' ');
-                if arg.contains(' ') {
-                    args.push('\"');
-                    args.push_str(arg);
-                    args.push('\"');
-                } else {
-                    args.push_str(arg);
-                }
+                args.push('\"');
+                args.push_str(
+                    &arg.replace('\\', "\\\\")
+                        .replace('"', "\\\"")
+                        .replace('\n', "\\n")
+                        .replace('\r', "\\r")
+                        .replace('\t', "\\t"),
+                );
+                args.push('\"');
             }
         }
 
